@@ -3,7 +3,8 @@
    correspondence (matrix, right-hand side and post-processing captured at the linear-solver interface).
    The theorems below are the algebra: the row equations of the scaled formulations are equivalent to
    F'_A(z) s = F(z), for EVERY linear H0, J, J^T, active set, lambda > 0, rho > 0 and residual. *)
-From Verif Require Import StepSolvers StepAlgebra StepProofs VecLemmas StepBridge.
+From Verif Require Import StepSolvers StepAlgebra StepProofs VecLemmas StepBridge StepBridge2.
+From Coq Require Import Lqa.
 
 Section C14.
   Variables H0 J Jt : V -> V.
@@ -121,6 +122,64 @@ Proof. vm_compute. split; reflexivity. Qed.
 Example C14_lists_wf : wfb ex14b 1 [false] [1] [0] /\ wfr ex14b [1] [0] 1 [false] [1] [0].
 Proof. split; constructor; try reflexivity; repeat constructor. Qed.
 
+(* ALL FOUR step solvers, on the lists the code builds: whichever system the configured solver assembles
+   (Standard: F'_A s = F;  Extended: permuted rows of the scaled system;  Symmetric: the reduced system in the
+   inactive variables and the multipliers;  Asymmetric: identity rows for active variables), any exact solution of
+   it, post-processed as the code does, solves the Standard system *)
+Theorem C14_every_kind_solves_standard_lists : forall (P : problem) xh yh dt rho, 0 < dt -> 0 < rho ->
+  forall act xd yd x y, wfb P rho act xd yd -> wfr P xh yh rho act x y ->
+  forall (k : solver_kind) sol, length sol = sys_len P act k ->
+  veq (mvec (matrix P dt rho k act xd yd) sol) (rhs P xh yh dt rho k act xd yd x y) ->
+  veq (mvec (matrix P dt rho KStandard act xd yd) (post_vec P xh yh dt rho act x y k sol))
+      (rhs P xh yh dt rho KStandard act xd yd x y).
+Proof.
+  intros P xh yh dt rho Hdt Hrho act xd yd x y WB WR k sol L H.
+  exact (every_kind_solves_standard_lists P xh yh dt rho Hdt Hrho act xd yd x y WB WR k sol L H).
+Qed.
+
+(* ... hence, where the Standard matrix determines its solution, any two step solvers return the same step *)
+Theorem C14_all_kinds_same_step : forall (P : problem) xh yh dt rho, 0 < dt -> 0 < rho ->
+  forall act xd yd x y, wfb P rho act xd yd -> wfr P xh yh rho act x y ->
+  forall (k1 k2 : solver_kind) s1 s2,
+  injective_on (matrix P dt rho KStandard act xd yd) (nvars P + ncons P) ->
+  length s1 = sys_len P act k1 -> length s2 = sys_len P act k2 ->
+  veq (mvec (matrix P dt rho k1 act xd yd) s1) (rhs P xh yh dt rho k1 act xd yd x y) ->
+  veq (mvec (matrix P dt rho k2 act xd yd) s2) (rhs P xh yh dt rho k2 act xd yd x y) ->
+  veq (post_vec P xh yh dt rho act x y k1 s1) (post_vec P xh yh dt rho act x y k2 s2).
+Proof.
+  intros P xh yh dt rho Hdt Hrho act xd yd x y WB WR k1 k2 s1 s2 Inj L1 L2 H1 H2.
+  exact (all_kinds_same_step P xh yh dt rho Hdt Hrho act xd yd x y WB WR k1 k2 s1 s2 Inj L1 L2 H1 H2).
+Qed.
+
+(* non-vacuity: two variables (the second active), one equality row; the four systems differ (3x3 permuted,
+   2x2 reduced), each has the listed solution, and all four post-processed steps are (-1/4, 3, 3/4) *)
+Definition ex14c : problem :=
+  quad_problem (mk_qspec [[1;0];[0;1]] [0;0] 0 [[[0;0];[0;0]]] [[1;1]] [0] [Some 0; None] [None;None] [Some 0] [Some 0]).
+Definition sol14c (k : solver_kind) : vec :=
+  match k with KStandard => [-1 # 4; 3; 3 # 4] | KSymmetric => [-1 # 4; 7 # 2] | _ => [-1 # 4; 3; 7 # 2] end.
+Example C14_all_kinds_nonvacuous :
+  forallb (fun k => (length (sol14c k) =? sys_len ex14c [false;true] k)%nat
+                    && veqb (mvec (matrix ex14c 1 1 k [false;true] [1;1] [0]) (sol14c k))
+                            (rhs ex14c [1;1] [0] 1 1 k [false;true] [1;1] [0] [1;1] [0])
+                    && veqb (post_vec ex14c [1;1] [0] 1 1 [false;true] [1;1] [0] k (sol14c k)) [-1 # 4; 3; 3 # 4])
+          [KStandard; KExtended; KSymmetric; KAsymmetric] = true
+  /\ matrix ex14c 1 1 KExtended [false;true] [1;1] [0] <> matrix ex14c 1 1 KAsymmetric [false;true] [1;1] [0].
+Proof. split; [vm_compute; reflexivity|vm_compute; discriminate]. Qed.
+Example C14_all_kinds_wf : wfb ex14c 1 [false;true] [1;1] [0] /\ wfr ex14c [1;1] [0] 1 [false;true] [1;1] [0].
+Proof. split; constructor; try reflexivity; repeat constructor. Qed.
+Example C14_all_kinds_injective : injective_on (matrix ex14c 1 1 KStandard [false;true] [1;1] [0]) 3.
+Proof.
+  intros v w Lv Lw H.
+  destruct v as [|v0 [|v1 [|v2 [|]]]]; try discriminate. destruct w as [|w0 [|w1 [|w2 [|]]]]; try discriminate.
+  match type of H with veq (mvec ?M _) _ => let M' := eval vm_compute in M in change M with M' in H end.
+  cbn [mvec map dot] in H.
+  inversion H as [|? ? ? ? E0 H']; subst. inversion H' as [|? ? ? ? E1 H'']; subst.
+  inversion H'' as [|? ? ? ? E2 _]; subst.
+  repeat constructor; lra.
+Qed.
+
 Print Assumptions C14_asymmetric_solves_standard_lists.
 Print Assumptions C14_scaled_residual_x.
 Print Assumptions C14_scaled_residual_y.
+Print Assumptions C14_every_kind_solves_standard_lists.
+Print Assumptions C14_all_kinds_same_step.
